@@ -14,6 +14,122 @@ A_MUL, B_MUL = 3, 5
 OPS = ["x", "y", "scale", "to_affine", "eq", "add", "double", "neg", "mul", "muladd", "pickle"]
 
 
+class DynLock(object):
+    """Stand-in for threading.Lock / RLock objects that the library's point / key classes may create themselves: every
+    acquire and release by a controlled thread is a yield point of the current execution's scheduler, and the scheduler knows
+    which acquires would block - so a lock-order deadlock is SEEN (no thread enabled) instead of waited for."""
+
+    def __init__(self, world, reentrant):
+        self.world, self.reentrant = world, reentrant
+        self.held, self.owner, self.count = False, None, 0
+
+    def _me(self):
+        ex = self.world.cur
+        return (ex.s, ex.s.controlled()) if ex is not None else (None, None)
+
+    def blocks(self, name):
+        return self.held and not (self.reentrant and self.owner == name)
+
+    def acquire(self, blocking=True, timeout=-1):
+        s, me = self._me()
+        if me is not None:
+            s.announce(("Acq", self))
+        who = me if me is not None else "uncontrolled"
+        if self.blocks(who):
+            if not blocking or timeout is not None and timeout >= 0:
+                return False
+            raise RuntimeError("harness: an acquire that has to wait was granted")
+        self.held, self.owner = True, who
+        self.count += 1
+        return True
+
+    def release(self):
+        s, me = self._me()
+        if me is not None:
+            s.announce(("Rel", self))
+        if not self.held:
+            raise RuntimeError("release unlocked lock")
+        if self.reentrant:
+            if self.owner != (me if me is not None else "uncontrolled"):
+                raise RuntimeError("cannot release un-acquired lock")
+            self.count -= 1
+            if self.count:
+                return
+        self.held, self.owner, self.count = False, None, 0
+
+    def locked(self):
+        return self.held
+
+    def __enter__(self):
+        return self.acquire()
+
+    def __exit__(self, *a):
+        self.release()
+
+    def __reduce__(self):          # a lock that ends up in a pickled state is somebody else's problem, not the harness's
+        return (_plain_lock, (self.reentrant,))
+
+
+def _plain_lock(reentrant):
+    import threading
+    return threading.RLock() if reentrant else threading.Lock()
+
+
+class DynThreading(object):
+    """What a library module sees as `threading` while the harness controls the schedule."""
+
+    def __init__(self, world):
+        self._world = world
+
+    def Lock(self):
+        return DynLock(self._world, False)
+
+    def RLock(self):
+        return DynLock(self._world, True)
+
+    def __getattr__(self, name):
+        import threading
+        return getattr(threading, name)
+
+
+def install_lock_shims(world, ecdsa_pkg):
+    """Locks created by the point / key modules themselves become scheduler-controlled (no such lock exists today)."""
+    import threading
+    import types
+    import sys
+    n = 0
+    for mname, mod in list(sys.modules.items()):
+        if not (mname == "ecdsa" or mname.startswith("ecdsa.")) or mod is None or mname.endswith("_rwlock"):
+            continue
+        for attr, val in list(vars(mod).items()):
+            if isinstance(val, types.ModuleType) and val is threading:
+                setattr(mod, attr, DynThreading(world))
+                n += 1
+            elif val is threading.Lock:
+                setattr(mod, attr, lambda w=world: DynLock(w, False))
+                n += 1
+            elif val is threading.RLock:
+                setattr(mod, attr, lambda w=world: DynLock(w, True))
+                n += 1
+    return n
+
+
+def lock_filter(ex, names):
+    """threads whose announced operation is an acquire that would have to wait are not enabled"""
+    out = []
+    for t in names:
+        p = ex.s.ts[t].pending
+        if p is not None and p[0] == "Acq" and isinstance(p[1], DynLock) and p[1].blocks(t):
+            continue
+        out.append(t)
+    return out
+
+
+def blocked_threads(ex):
+    return [t for t, st in sorted(ex.s.ts.items()) if not st.finished and st.pending is not None and st.pending[0] == "Acq"
+            and isinstance(st.pending[1], DynLock) and st.pending[1].blocks(t)]
+
+
 class World(object):
     """Per-process instrumentation of the PointJacobi class (installed once, scheduler swapped per execution)."""
 
@@ -23,6 +139,8 @@ class World(object):
         self.ec = ellipticcurve
         self.PJ = ellipticcurve.PointJacobi
         self.cur = None          # current Execution
+        import ecdsa.keys, ecdsa.ecdsa, ecdsa.curves  # noqa  (all modules whose objects the threads share)
+        self.lock_shims = install_lock_shims(self, self.ecdsa)
         p, a, b, n, G, h = toy.params(CID)
         self.p, self.a, self.n = p, a, n
         self.cf = ellipticcurve.CurveFp(p, a, b, h)
@@ -119,6 +237,10 @@ class World(object):
             P.__dict__[tname] = list(self.full_table)
         return P
 
+    def second_point(self):
+        x, y = self.other
+        return self.PJ(self.cf, x * 4 % self.p, y * 8 % self.p, 2, self.n)
+
     def local_point(self):
         return self.PJ(self.cf, self.other[0], self.other[1], 1, self.n)
 
@@ -137,6 +259,10 @@ class World(object):
             return (R.x(), R.y())
         if op == "eq":
             return P == self.PJ(self.cf, self.base[0], self.base[1], 1, self.n)
+        if op in ("add2", "radd2"):
+            # a SECOND shared point (the same object for every thread of the execution), in either role
+            Q2 = self.cur.Q2 if self.cur is not None else self.second_point()
+            return aff(P + Q2) if op == "add2" else aff(Q2 + P)
         if op == "add":
             return aff(P + self.local_point())
         if op == "double":
@@ -160,7 +286,10 @@ class Execution(object):
         self.s = sched.Sched()
         self.progs = progs
         self.P = world.make_point(gen, scaled, table_full)
+        self.Q2 = world.second_point()
         self.shared = {id(self.P)}
+        if any(op in ("add2", "radd2") for prog in progs for op in prog):
+            self.shared.add(id(self.Q2))
         self.problems = []
         self.in_snap = False
         self.reads = {}          # thread -> list of (tag, value-id) it has read (exact thread-local state key)
@@ -177,7 +306,7 @@ class Execution(object):
             co = frame.f_code
             if not co.co_filename.endswith("ellipticcurve.py"):
                 return None
-            if frame.f_locals.get("self") is self.P and (any(n in self.w.fields for n in co.co_names)
+            if (frame.f_locals.get("self") is self.P or (id(self.Q2) in self.shared and frame.f_locals.get("self") is self.Q2)) and (any(n in self.w.fields for n in co.co_names)
                                                           or co.co_name in ("__getstate__", "__setstate__", "__reduce__", "__reduce_ex__")):
                 return local
             # comprehensions / generator expressions running on behalf of such a method (they iterate the object's state)
@@ -210,7 +339,7 @@ class Execution(object):
     def on_read(self, tag, v, obj=None):
         t = self.s.controlled()
         if tag == "coords":
-            ok = isinstance(v, tuple) and len(v) == 3 and self.w.affine_of(v) == self.w.base
+            ok = isinstance(v, tuple) and len(v) == 3 and self.w.affine_of(v) == (self.w.other if obj is self.Q2 else self.w.base)
             vid = ("c", tuple(v) if isinstance(v, tuple) else repr(v))
         else:
             ent = [tuple(e) for e in v] if isinstance(v, list) else None
@@ -235,19 +364,26 @@ class Execution(object):
             return None
         if p[0] == "Line":
             return "L"
+        if p[0] in ("Acq", "Rel"):
+            return "K"           # an operation on a lock of the library's own (unknown to PointThreads.tla: DRIFT)
         return {"Rd": "R", "Wr": "W", "Snap": "S"}[p[0]] + (p[1][0] if p[0] != "Snap" else "")
 
     def enabled(self):
-        return [t for t, st in sorted(self.s.ts.items()) if not st.finished and st.pending is not None]
+        return lock_filter(self, [t for t, st in sorted(self.s.ts.items()) if not st.finished and st.pending is not None])
 
     def key(self):
         d = self.P.__dict__
-        shared = tuple((k, repr(d.get(k))) for k in sorted(self.w.fields))
+        shared = tuple((k, repr(d.get(k))) for k in sorted(self.w.fields)) + tuple((k, repr(self.Q2.__dict__.get(k))) for k in sorted(self.w.fields))
         return (shared, tuple((t, tuple(self.reads.get(t, ())), self.pending_kind(t)) for t in sorted(self.s.ts)))
 
     def finish_check(self, expected):
         """After all threads finished: results vs sequential results, exceptions, monitor."""
         out = list(self.problems)
+        stuck = blocked_threads(self)
+        if stuck:
+            out.append("threads %s never return: each waits for a lock of the library's own that another holds (deadlock); "
+                       "programs %s" % (stuck, [self.progs[t - 1] for t in stuck]))
+            return out
         for t, st in sorted(self.s.ts.items()):
             if st.exc:
                 out.append("thread %s (%s) raised %s because of the interleaving" % (t, self.progs[t - 1], st.exc[0]))
@@ -365,14 +501,18 @@ def preemption_sweep(args):
     """Line granularity ("a context switch possible at every line the point class executes on a shared object"):
     for two threads, run A for k steps (lines and field accesses), then B to completion, then A to completion, for
     every k; and with the roles swapped.  One preemption at every possible position."""
-    progs, gen, scaled, table_full = args
+    progs, gen, scaled, table_full = args[:4]
     w = world()
     expected = sequential(w, progs, gen, scaled, table_full)
     execs = steps = 0
     problems = []
+    confirm = None
     for first, second in ((1, 2), (2, 1)):
         k = 0
         while True:
+            # a thread blocked on a lock of the library's own never reaches a yield point: that is noticed after a short wait
+            # and CONFIRMED by repeating the same schedule with the full watchdog before it is reported
+            sched.WATCHDOG = 120.0 if confirm == (first, k) else 12.0
             ex = Execution(w, progs, gen, scaled, table_full, line_mode=True)
             execs += 1
             schedule = []
@@ -385,21 +525,27 @@ def preemption_sweep(args):
                     ex.s.step(first)
                     schedule.append(first)
                     steps += 1
-                while second in ex.enabled():
-                    ex.s.step(second)
-                    schedule.append(second)
-                    steps += 1
-                while first in ex.enabled():
-                    ex.s.step(first)
-                    schedule.append(first)
+                while True:       # the second thread as far as it gets, the first only when the second has to wait for it
+                    en = ex.enabled()
+                    nxt = second if second in en else first if first in en else None
+                    if nxt is None:
+                        break
+                    ex.s.step(nxt)
+                    schedule.append(nxt)
                     steps += 1
                 for pr in ex.finish_check(expected):
                     problems.append({"schedule": "thread %d for %d steps, then thread %d to completion, then thread %d"
                                      % (first, k, second, first), "what": pr})
             except sched.SchedulerStuck as e:
-                problems.append({"schedule": schedule, "what": "execution stuck: %s" % e})
+                if confirm != (first, k):
+                    confirm = (first, k)
+                    ex.close()
+                    continue
+                problems.append({"schedule": "thread %d for %d steps, then thread %d: %s" % (first, k, second, schedule),
+                                 "what": "the threads block each other for ever (execution stuck: %s)" % e})
             finally:
                 ex.close()
+                sched.WATCHDOG = 120.0
             if done_first or problems or k > 4000:
                 break
             k += 1
@@ -599,7 +745,7 @@ class KeyExecution(object):
         self.kw.cur = None
 
     def enabled(self):
-        return [t for t, st in sorted(self.s.ts.items()) if not st.finished and st.pending is not None]
+        return lock_filter(self, [t for t, st in sorted(self.s.ts.items()) if not st.finished and st.pending is not None])
 
     def key(self):
         regs = []
@@ -612,6 +758,11 @@ class KeyExecution(object):
 
     def finish_check(self, expected):
         out = list(self.problems)
+        stuck = blocked_threads(self)
+        if stuck:
+            out.append("threads %s never return: each waits for a lock of the library's own that another holds (deadlock); "
+                       "programs %s" % (stuck, [self.progs[t - 1] for t in stuck]))
+            return out
         for t, st in sorted(self.s.ts.items()):
             if st.exc:
                 out.append("thread %s (%s) raised %s because of the interleaving" % (t, self.progs[t - 1], st.exc[0]))
@@ -717,11 +868,12 @@ def preemption_sweep_keys(args):
                     ex.s.step(first)
                     schedule.append(first)
                     steps += 1
-                while second in ex.enabled():
-                    ex.s.step(second)
-                    steps += 1
-                while first in ex.enabled():
-                    ex.s.step(first)
+                while True:
+                    en = ex.enabled()
+                    nxt = second if second in en else first if first in en else None
+                    if nxt is None:
+                        break
+                    ex.s.step(nxt)
                     steps += 1
                 for pr in ex.finish_check(expected):
                     problems.append({"schedule": "thread %d for %d steps, then thread %d to completion, then thread %d"
